@@ -321,7 +321,8 @@ def run_family(pid, tier, seed, replay=None):
         for l, checks in byline.items():
             path = os.path.join(viol_dir, "%s.json" % cases[l]["id"])
             json.dump(cases[l], open(path, "w"))
-            out_viol.append((path, sorted(set(checks)), cases[l]))
+            cs = sorted(set(checks))
+            out_viol.append((path, cs[:4] + (["(+%d more)" % (len(cs) - 4)] if len(cs) > 4 else []), cases[l]))
 
     for kf, n in sorted(known.items()):
         print("KNOWN-FINDING: property=%s %s (%d failing checks, all in that shape)" % (pid, kf, n))
